@@ -296,8 +296,20 @@ where
         Ok(())
     }
 
+    /// # Panics
+    ///
+    /// Panics if the table has to grow and the allocation fails
     pub fn entry(&'_ mut self, key: Handle) -> Entry<'_, T> {
-        let ind = self.find_ind(key);
+        let mut ind = self.find_ind(key);
+        unsafe {
+            if *self.handles.as_ptr().add(ind) != key
+                && (self.count + 1) as f32 > self.capacity as f32 * MAX_LOAD
+            {
+                // keep the load factor, otherwise the table fills up and find_ind never returns
+                self.grow().expect("Failed to grow the HandleTable");
+                ind = self.find_ind(key);
+            }
+        }
 
         let pl = unsafe {
             if *self.handles.as_ptr().add(ind) != key {
